@@ -75,6 +75,10 @@ func (actScen) Gen(r *Rng, cfg GenConfig) any {
 		if r.Chance(1, 6) {
 			t.Outs = append(t.Outs, Out{"file", "out.bin"})
 		}
+		if r.Chance(1, 5) {
+			// a plain command whose text and output contain characters that matter to printf-style formatting
+			t.Raw = append(t.Raw, Pick(r, []string{"echo progress 100% done", "echo 50%d and %s and %v", "echo tab-and-percent %", "echo a%%b"}))
+		}
 		c.Prog.Tasks = append(c.Prog.Tasks, t)
 	}
 	c.Prog.Tasks = Shuffled(r, c.Prog.Tasks)
@@ -91,6 +95,9 @@ func (actScen) Gen(r *Rng, cfg GenConfig) any {
 	}
 	c.Symlink = cfg.Prop == "C19" && r.Chance(1, 6)
 	na := r.Range(2, 6)
+	if cfg.Tier == "thorough" && r.Chance(1, 4) {
+		na = r.Range(7, 12)
+	}
 	for i := 0; i < na; i++ {
 		a := Act{Cwd: Pick(r, acCwds)}
 		switch k := r.Intn(20); {
@@ -559,11 +566,21 @@ func (s *projState) judgeReport(res *Result, c *ActCase, ai int, a Act, obs *Obs
 			continue
 		}
 		nrun++
-		if len(r.Results) != t.NCmd {
-			res.violate("C20", "json-reports-every-command", sig, "act%d: task %s has %d commands, the report has %d results", ai, r.Task, t.NCmd, len(r.Results))
+		if len(r.Results) != t.NCmd+len(t.Raw) {
+			res.violate("C20", "json-reports-every-command", sig, "act%d: task %s has %d commands, the report has %d results", ai, r.Task, t.NCmd+len(t.Raw), len(r.Results))
 			return true
 		}
 		for i, cr := range r.Results {
+			if i >= t.NCmd {
+				raw := t.Raw[i-t.NCmd]
+				want := strings.Join(strings.Fields(strings.TrimPrefix(raw, "echo ")), " ") + "\n"
+				if cr.Cmd != raw || cr.Stdout != want || cr.Stderr != "" || cr.Status != 0 {
+					res.violate("C20", "json-reports-every-command", sig, "act%d: task %s command %q reported as cmd=%q stdout=%q stderr=%q status=%d; it prints %q", ai, r.Task, raw, cr.Cmd, cr.Stdout, cr.Stderr, cr.Status, want)
+					return true
+				}
+				res.count("probe:raw_command_with_percent_checked")
+				continue
+			}
 			if cr.Cmd != StdCmd(t.Name, i) || cr.Stdout != fmt.Sprintf("OUT_%s_%d\n", t.Name, i) || cr.Stderr != fmt.Sprintf("ERR_%s_%d\n", t.Name, i) || cr.Status != 0 {
 				res.violate("C20", "json-reports-every-command", sig, "act%d: task %s command %d reported as cmd=%q stdout=%q stderr=%q status=%d; it is %q and printed OUT_%s_%d / ERR_%s_%d with status 0", ai, r.Task, i, cr.Cmd, cr.Stdout, cr.Stderr, cr.Status, StdCmd(t.Name, i), t.Name, i, t.Name, i)
 				return true
